@@ -1,4 +1,4 @@
-(** Model of src/epd7in3f/mod.rs — STUB, not yet transcribed. *)
+(** Model of src/epd7in3f/mod.rs (7-colour ACeP, OctColor). *)
 From Coq Require Import List NArith Bool.
 From EPD Require Import Iface Ops Drv.Luts.
 Import ListNotations.
@@ -9,10 +9,110 @@ Module Epd7in3f.
 Definition WIDTH : N := 800.
 Definition HEIGHT : N := 480.
 
-Definition init : M unit := ret tt.
+(** OctColor::get_nibble = the colour code; OctColor::colors_byte (u8 arithmetic) *)
+Definition get_nibble (c : N) : N := c.
+Definition colors_byte (a b : N) : N := bor (u8 (shl (get_nibble a) 4)) (get_nibble b).
 
-Definition exec (k : N) (o : op) : option (M rval) := None.
+(** OctColor codes used by show_7block *)
+Definition oBlack : N := 0.
+Definition oWhite : N := 1.
+Definition oGreen : N := 2.
+Definition oBlue : N := 3.
+Definition oRed : N := 4.
+Definition oYellow : N := 5.
+Definition oOrange : N := 6.
+
+(** private helpers [command], [wait_busy_low] of the driver *)
+Definition command (c : N) : M unit := cmd c.
+Definition wait_busy_low : M unit := wait_idle true.
+
+Definition wait_until_idle : M unit := wait_busy_low.
+
+Definition init : M unit :=
+  reset 20000 2000 ;;
+  wait_busy_low ;;
+  delay_ms 30 ;;
+  cmd_with_data 0xAA [0x49; 0x55; 0x20; 0x08; 0x09; 0x18] ;;
+  cmd_with_data 0x01 [0x3F; 0x00; 0x32; 0x2A; 0x0E; 0x2A] ;;
+  cmd_with_data 0x00 [0x5F; 0x69] ;;
+  cmd_with_data 0x03 [0x00; 0x54; 0x00; 0x44] ;;
+  cmd_with_data 0x05 [0x40; 0x1F; 0x1F; 0x2C] ;;
+  cmd_with_data 0x06 [0x6F; 0x1F; 0x1F; 0x22] ;;
+  cmd_with_data 0x08 [0x6F; 0x1F; 0x1F; 0x22] ;;
+  cmd_with_data 0x13 [0x00; 0x04] ;;
+  cmd_with_data 0x30 [0x3C] ;;
+  cmd_with_data 0x41 [0x00] ;;
+  cmd_with_data 0x50 [0x3F] ;;
+  cmd_with_data 0x60 [0x02; 0x00] ;;
+  cmd_with_data 0x61 [0x03; 0x20; 0x01; 0xE0] ;;
+  cmd_with_data 0x82 [0x1E] ;;
+  cmd_with_data 0x84 [0x00] ;;
+  cmd_with_data 0x86 [0x00] ;;
+  cmd_with_data 0xE3 [0x2F] ;;
+  cmd_with_data 0xE0 [0x00] ;;
+  cmd_with_data 0xE6 [0x00].
+
+Definition sleep : M unit :=
+  cmd_with_data 0x07 [0xA5].
+
+Definition update_frame (k len : N) : M unit :=
+  wait_until_idle ;;
+  cmd_with_data_e 0x10 (DArg k 0 0 len).
+
+Definition update_partial_frame (k len x y w h : N) : M unit := panic.
+
+Definition display_frame : M unit :=
+  command 0x04 ;;
+  wait_busy_low ;;
+  cmd_with_data 0x12 [0x00] ;;
+  wait_busy_low ;;
+  cmd_with_data 0x02 [0x00] ;;
+  wait_busy_low.
+
+Definition update_and_display_frame (k len : N) : M unit :=
+  update_frame k len ;;
+  display_frame.
+
+Definition clear_frame : M unit :=
+  s <- get ;;
+  let bg_ := colors_byte (bg s) (bg s) in
+  wait_busy_low ;;
+  command 0x10 ;;
+  data_x_times bg_ (WIDTH * HEIGHT / 2) ;;
+  display_frame.
+
+Definition set_lut (r : option N) : M unit := panic.
+
+Definition show_7block : M unit :=
+  let color_7 := [oBlack; oWhite; oGreen; oBlue; oRed; oYellow; oOrange; oWhite] in
+  command 0x10 ;;
+  repeatM 240
+    (forM (firstn 4 color_7) (fun color =>
+       data_each BId 1 (DRep (colors_byte color color) 100))) ;;
+  repeatM 240
+    (forM (skipn 4 color_7) (fun color =>
+       data_each BId 1 (DRep (colors_byte color color) 100))) ;;
+  display_frame.
+
+Definition exec (k : N) (o : op) : option (M rval) :=
+  match o with
+  | OSleep => unit_ sleep
+  | OWakeUp => unit_ init
+  | OSetBg c => unit_ (modify (set_bg c))
+  | OGetBg => Some (s <- get ;; ret (RColor (bg s)))
+  | OWidth => Some (ret (RNum WIDTH))
+  | OHeight => Some (ret (RNum HEIGHT))
+  | OUpdateFrame len => unit_ (update_frame k len)
+  | OUpdatePartial len x y w h => unit_ (update_partial_frame k len x y w h)
+  | ODisplay => unit_ display_frame
+  | OUpdateAndDisplay len => unit_ (update_and_display_frame k len)
+  | OClear => unit_ clear_frame
+  | OSetLut r => unit_ (set_lut r)
+  | OWaitIdle => unit_ wait_until_idle
+  | OShow7Block => unit_ show_7block
+  | _ => None
+  end.
 
 Definition drv (ft : feat) : driver :=
-  mkDriver WIDTH HEIGHT true d0 init exec.
+  mkDriver WIDTH HEIGHT true (mkD cWhite 0 false false 0 None) init exec.
 End Epd7in3f.
